@@ -165,7 +165,10 @@ def run_once(r):
         r.log("fault: panic() at row %d: %s" % (bad, sql))
     rc, out, err = octosql(sql, extra, cfg)
     r.fault(fault)
-    r.log("faulty run: exit=%s stdout_lines=%d stderr=%s" % (rc, out.count(b"\n"), simlib.norm_err(err.decode("utf-8", "replace")).strip()[-160:]))
+    r.log("faulty run: exit=%s" % ("0" if rc == 0 else ("none" if rc is None else "non-zero")))
+    # not hashed: how many rows were printed before the failure, and which of several error paths reported it,
+    # is the operating system's schedule of the real binary
+    r.note("  exit=%s stdout_lines=%d stderr=%s" % (rc, out.count(b"\n"), simlib.norm_err(err.decode("utf-8", "replace")).strip()[-160:]))
     if rc is None:
         r.violate("C06", "hang", attrs, "octosql did not terminate within 60s after the fault (%s)" % sql)
         return
